@@ -65,12 +65,12 @@ type half struct {
 }
 
 type ConnFaults struct {
-	ReadErrAt   int // op index (1-based) at which Read fails; 0 = never
-	ReadErrKind string
-	WriteErrAt  int
-	WriteErrKind string
+	ReadErrAt     int // op index (1-based) at which Read fails; 0 = never
+	ReadErrKind   string
+	WriteErrAt    int
+	WriteErrKind  string
 	DeadlineErrAt int // index over Set*Deadline calls
-	ShortReadMax int // >0: Read returns at most this many bytes
+	ShortReadMax  int // >0: Read returns at most this many bytes
 }
 
 type Pair struct {
@@ -93,6 +93,7 @@ type Conn struct {
 
 	ReadOps, WriteOps, DeadlineOps int
 	CloseCalls                     int
+	ClosedAt                       time.Time // (bubble) time of the first Close call
 	Faults                         ConnFaults
 	// everything ever written by this side (kept only when Record is set)
 	Record  bool
@@ -394,6 +395,7 @@ func (c *Conn) Close() error {
 		return opErr("close", c, net.ErrClosed)
 	}
 	c.closed = true
+	c.ClosedAt = time.Now()
 	c.out.finQueued = true
 	c.in.rcvClosed = true
 	if len(c.in.inflight) > 0 || len(c.in.readable) > 0 {
